@@ -1,3 +1,5 @@
 pub mod c08;
 pub mod c09;
+pub mod c10;
+pub mod c15;
 pub mod c20;
